@@ -7,6 +7,7 @@ import (
 	"fmt"
 	"net/http"
 	"net/http/httptest"
+	"os"
 	"runtime"
 	"strings"
 
@@ -84,6 +85,10 @@ func panicOp(c *Ctx, op string) {
 		case "joined":
 			// ... or keeps the panic next to it
 			return errors.Join(coded, fmt.Errorf("panic: %v", v))
+		case "timeout":
+			// ... or hands back an uncoded I/O timeout it ran into itself: still just an uncoded
+			// error (unknown), nothing to do with the call's deadline
+			return &textOver{text: "recovered", inner: os.ErrDeadlineExceeded}
 		case "asmethod":
 			// ... or returns its own error type that presents a coded error through errors.As
 			return asCoded{coded}
@@ -246,6 +251,8 @@ func panicOp(c *Ctx, op string) {
 			outcome = "panic-" + classify(ic.panicValue)
 		case callErr != nil && connect.CodeOf(callErr) == connect.CodeDataLoss && strings.Contains(callErr.Error(), "recovered"):
 			outcome = "recovered"
+		case callErr != nil && a["ret"] == "timeout" && connect.CodeOf(callErr) == connect.CodeUnknown && strings.Contains(callErr.Error(), "recovered"):
+			outcome = "recovered" // the uncoded error of the recovery function, as unknown
 		case callErr != nil:
 			outcome = "error:" + connect.CodeOf(callErr).String()
 		}
@@ -277,7 +284,7 @@ func panicOp(c *Ctx, op string) {
 		}
 		if ic.panicked {
 			c.Fail("recover-escaped", op, ans, "the panic escaped ServeHTTP although a recovery function is installed")
-		} else if callErr == nil || connect.CodeOf(callErr) != connect.CodeDataLoss {
+		} else if wantCode := map[bool]connect.Code{true: connect.CodeUnknown, false: connect.CodeDataLoss}[a["ret"] == "timeout"]; callErr == nil || connect.CodeOf(callErr) != wantCode {
 			c.Fail("recover-client-error", op, ans+" err="+fmt.Sprint(callErr), "the client did not receive the error returned by the recovery function")
 		}
 	}
@@ -334,7 +341,7 @@ func streamPanic(c *Ctx) {
 							panicOp(c, fmt.Sprintf("recover %s 0 %s kind=%s proto=%s point=%s pre=%d post=%d val=%s fwd=1", api, class, kind, proto, point, pre, post, val))
 						}
 						if point == "after" && class != "none" {
-							panicOp(c, fmt.Sprintf("recover %s 0 %s kind=%s proto=%s point=%s pre=%d post=%d val=%s ret=%s", api, class, kind, proto, point, pre, post, val, []string{"joined", "asmethod"}[r.Intn(2)]))
+							panicOp(c, fmt.Sprintf("recover %s 0 %s kind=%s proto=%s point=%s pre=%d post=%d val=%s ret=%s", api, class, kind, proto, point, pre, post, val, []string{"joined", "asmethod", "timeout"}[r.Intn(3)]))
 						}
 						if point == "between" || class == "none" {
 							panicOp(c, fmt.Sprintf("recover %s 0 %s kind=%s proto=%s point=%s pre=%d post=%d val=%s nil=%d ret=%s", api, class, kind, proto, point, pre, post, val, 1+r.Intn(4), []string{"coded", "wrapped"}[r.Intn(2)]))
@@ -346,6 +353,7 @@ func streamPanic(c *Ctx) {
 	}
 	c.exhaust = true
 	panicAfterDeadlineProbe(c)
+	sharedOptionRecoverProbe(c)
 	// clean call followed by a panicking call on the same handler (state must not leak)
 	for _, kind := range kinds {
 		sequenceProbe(c, kind)
@@ -353,6 +361,62 @@ func streamPanic(c *Ctx) {
 	// client-side: WithRecover is a HandlerOption only; the unary wrapper's IsClient branch is
 	// exercised by the model op below (identity)
 	c.Emit("recover unary 1 other", "calls=[] outcome=panic-other", false)
+}
+
+// sharedOptionRecoverProbe: one WithInterceptors option value is used for a handler without
+// recovery and then, behind WithRecover(f), for a second handler: the second handler's panics
+// reach f exactly once and the client gets f's error.
+func sharedOptionRecoverProbe(c *Ctx) {
+	for _, kind := range []string{"unary", "server"} {
+		calls := 0
+		f := func(context.Context, connect.Spec, http.Header, any) error {
+			calls++
+			return connect.NewError(connect.CodeDataLoss, errors.New("recovered"))
+		}
+		log := &eventLog{}
+		shared := connect.WithInterceptors(&logIcpt{id: 1, log: log})
+		mk := func(panics bool, opts ...connect.HandlerOption) http.Handler {
+			if kind == "unary" {
+				return connect.NewUnaryHandler("/s/m", func(ctx context.Context, req *connect.Request[wrapperspb.Int64Value]) (*connect.Response[wrapperspb.Int64Value], error) {
+					if panics {
+						panic("boom")
+					}
+					return connect.NewResponse(&wrapperspb.Int64Value{Value: 1}), nil
+				}, opts...)
+			}
+			return connect.NewServerStreamHandler("/s/m", func(ctx context.Context, req *connect.Request[wrapperspb.Int64Value], s *connect.ServerStream[wrapperspb.Int64Value]) error {
+				if panics {
+					panic("boom")
+				}
+				return nil
+			}, opts...)
+		}
+		_ = mk(false, shared) // first use: a service without recovery
+		second := mk(true, connect.WithRecover(f), shared)
+		ic := &inprocClient{h: second}
+		cl := connect.NewClient[wrapperspb.Int64Value, wrapperspb.Int64Value](ic, "http://h/s/m")
+		var err error
+		got := safely(func() string {
+			if kind == "unary" {
+				_, err = cl.CallUnary(context.Background(), connect.NewRequest(&wrapperspb.Int64Value{Value: 5}))
+			} else {
+				s, cerr := cl.CallServerStream(context.Background(), connect.NewRequest(&wrapperspb.Int64Value{Value: 5}))
+				if cerr == nil {
+					for s.Receive() {
+					}
+					err = s.Err()
+					_ = s.Close()
+				} else {
+					err = cerr
+				}
+			}
+			return fmt.Sprintf("calls=%d escaped=%v code=%s", calls, ic.panicked, codeOrOK(err))
+		})
+		c.Count("recover-shared-option")
+		if got != "calls=1 escaped=false code=data_loss" {
+			c.Fail("recover-count", "a WithInterceptors value used first for a handler without recovery, then behind WithRecover(f) for a "+kind+" handler that panics", got, "a handler panic must lead to exactly one call of the recovery function, whose error reaches the client")
+		}
+	}
 }
 
 // sequenceProbe: the same handler serves a clean call, then a panicking one, then a clean one.
